@@ -86,9 +86,13 @@ func newApp(db dbm.DB, home string) *app.App { return newAppOpts(db, home, false
 
 // newAppOpts: skipGenesisInvariants is the node-local flag --x-crisis-skip-assert-invariants. It is set on one of the twin
 // instances only (C01): what a node is told on its command line must not show in any hash.
+// InvCheckPeriod is the node-local flag --inv-check-period (0: the registered invariants are never asserted in EndBlock). Set by
+// `vharness twin -invperiod N` on one instance only.
+var InvCheckPeriod uint
+
 func newAppOpts(db dbm.DB, home string, skipGenesisInvariants bool) *app.App {
 	return app.NewApp(log.NewNopLogger(), db, nil, true,
-		simtestutil.AppOptionsMap{flags.FlagHome: home, server.FlagInvCheckPeriod: uint(0),
+		simtestutil.AppOptionsMap{flags.FlagHome: home, server.FlagInvCheckPeriod: InvCheckPeriod,
 			crisis.FlagSkipGenesisInvariants: skipGenesisInvariants},
 		baseapp.SetChainID(ChainID))
 }
